@@ -64,6 +64,15 @@ fn main() {
                 Err(e) => println!("not-executable {e}"),
             }
         }
+        "digest" => {
+            // digest <ID> <seed> <runs>  (determinism self-test)
+            let Some(p) = props::by_id(&args[2]) else { std::process::exit(2) };
+            let seed: u64 = args.get(3).and_then(|s| s.parse().ok()).unwrap_or(1);
+            let runs: u64 = args.get(4).and_then(|s| s.parse().ok()).unwrap_or(50);
+            for l in framework::digest_runs(p.as_ref(), Tier::Quick, seed, runs, framework::workers()) {
+                println!("{l}");
+            }
+        }
         "c18-digest" => {
             let seed: u64 = args.get(2).and_then(|s| s.parse().ok()).unwrap_or(1);
             let n: u64 = args.get(3).and_then(|s| s.parse().ok()).unwrap_or(10);
